@@ -395,6 +395,22 @@ def sparse_one(run, seed, idx, mods):
     nl = sparseframe.sparse_localmax(wfr)
     if nl != res[0][0] or not np.array_equal(wfr.pixels["localmax"], res[0][1]) or wfr.meta["localmax"]["nlabel"] != nl:
         run.violation("sparseframe.sparse_localmax", "wrapper labels differ from the kernel result", desc)
+    # a second labelling must not disturb the first: another signal of the same frame under another name, then another
+    # frame with exactly as many pixels (the wrapper allocates per call; labels stored in a frame belong to that frame)
+    first = wfr.pixels["localmax"].copy()
+    other = (-np.asarray(wfr.pixels["intensity"], np.float32)).astype(np.float32)
+    wfr.set_pixels("negated", other)
+    sparseframe.sparse_localmax(wfr, label_name="localmax_neg", data_name="negated")
+    fr2 = sparseframe.sparse_frame(wfr.row.copy(), wfr.col.copy(), wfr.shape,
+                                   pixels={"intensity": other.copy()})
+    sparseframe.sparse_localmax(fr2)
+    run.count("sparse_localmax_second_call_checks")
+    if not np.array_equal(wfr.pixels["localmax"], first):
+        run.violation("sparseframe.sparse_localmax:earlier-labels-overwritten", "labels stored by an earlier sparse_localmax call "
+                      "changed when another signal / another frame with the same number of pixels was labelled", desc)
+    elif np.shares_memory(wfr.pixels["localmax"], wfr.pixels["localmax_neg"]) or \
+            np.shares_memory(wfr.pixels["localmax"], fr2.pixels["localmax"]):
+        run.violation("sparseframe.sparse_localmax:labels-share-storage", "label arrays of two sparse_localmax calls share storage", desc)
     sm = sparseframe.sparse_smooth(wfr)
     run.count("sparse_smooth_checks")
     why = check_smooth(sm, row, col, v, shape)
